@@ -21,7 +21,32 @@ CFG = {
             "1024,70000} x 5 extractors x lengths {cap-2..cap+2, 2*cap, 64KiB+1} x framings {Content-Length, one "
             "chunk, all 1-byte chunks, a chunk boundary at every offset of a 16-byte window around the cap, a chunk "
             "ending at every offset of that window, seeded random}); live-macro (the #[endpoint] macro's "
-            "request_body_max_bytes argument). Observed per run: status, whether the handler was entered (a record "
+            "request_body_max_bytes argument). LARGE-SCOPE slice (deterministic, no seed; groups large-direct, large-live, "
+            "large-abstract, large-cross; every dimension named in a tag large:...): the cap at every round size "
+            "255/256/257, 1023/1024/1025, 4095/4096/4097, 8191/8192/8193, 16383/16384/16385, 65535/65536/65537 "
+            "(as override above/below the default and as server default) with bodies of cap-1, cap, cap+1 bytes, "
+            "direct (one frame; frame after an exact fill; last frame straddling; first frame crossing; an empty "
+            "frame after an exact fill; 4096- and 8192-byte frames; halves) and live (Content-Length, one chunk, "
+            "chunk cut at cap and at cap-1, 4096/8192-byte chunks), extractors rotating in quick and all five in "
+            "thorough; the NUMBER of frames 1, 2, 255, 256, 257, 4097, 65537 one-byte frames against cap N-1 and N "
+            "(direct, with and without a trailers frame; live as 1-byte chunks up to 4097 in quick, 65537 in "
+            "thorough); one frame of 64 KiB+1 against caps 0, 1, 256, 1024; caps u32::MAX-1, u32::MAX, u32::MAX+1, "
+            "isize::MAX-1, isize::MAX = i64::MAX, isize::MAX+1, usize::MAX with bodies of 0, 257 and 65537 bytes "
+            "direct and 257 bytes live (Content-Length and chunked). Up to 64 KiB+1 these are ordinary cases (Coq "
+            "expands the body and recomputes the checksums). Larger bodies are ABSTRACTED SOUNDLY (constructor "
+            "CAbs): cap 1 MiB with bodies 1 MiB-1, 1 MiB, 1 MiB+1 and a 1 MiB body against the default 1024, all "
+            "five extractors, direct (one frame, cut at cap / cap-1, 8192- and 65536-byte frames) and live "
+            "(Content-Length, one chunk, 65536-byte chunks); thorough adds caps 1 MiB-1 and 1 MiB+1, a 16 MiB+1 "
+            "body against caps 1024, 16 MiB, 16 MiB+1, 16 MiB+2 (all extractors, direct and live) and 4 GiB bodies "
+            "of cap-1, cap, cap+1 bytes for caps u32::MAX-1, u32::MAX, u32::MAX+1 through the streaming extractor "
+            "(virtual body of 1 MiB frames, ~4097 frames). For a CAbs case Coq never sees the bytes: the body is "
+            "given by its segments (lengths and shape recognised structurally), the model is run on frame LENGTHS "
+            "(BodyCap.stream_len, proved equal to the byte-level stream in sizes, outcome and frames pulled: "
+            "C11_stream_depends_on_lengths), the specification evaluated is the very same [spec], and byte equality "
+            "of everything a handler received with the initial part of the expected region is checked in the harness "
+            "by direct comparison and reported as 1/0 in place of the checksum. large-cross judges the same direct "
+            "runs (caps 255..257, 65535..65537) both ways so the length-only judge is itself cross-checked. "
+            "Observed per run: status, whether the handler was entered (a record "
             "in the server's private context), length+checksum of what the handler received, for streaming the size "
             "of every chunk received (running totals) and the error item's status, for multipart the field bytes "
             "received and whether multer reported an error, for direct runs the number of frames pulled from the "
@@ -30,7 +55,7 @@ CFG = {
     "exhaustive_note": "direct-compositions, direct-frame-lists and live-compositions enumerate their stated spaces "
                        "completely (the code inspects a data frame only through its length, so sizes 0..3 and caps "
                        "0..3 cover every ordering of bytes_read+len against cap for lists of <= 4 frames); the "
-                       "grids and the sampled group are samples",
+                       "grids, the sampled group and the large-scope slice (fixed list of sizes) are samples",
     "trusted_base": COMMON_TB + [
         "hyper (library): request parsing and de-framing of Content-Length / chunked bodies into data frames whose "
         "concatenation is the body (checked per live run only through totals and checksums); in direct runs hyper "
@@ -46,6 +71,9 @@ CFG = {
         "Run_C11.v (complete stream -> the field; stream ending in the 400 error -> an error after an initial part "
         "of the field bytes); the theorems hold for an arbitrary parser (Section variables M, multer)",
         "async-stream's try_stream! (library): the generator body of into_stream runs sequentially as written",
+        "large (CAbs) cases: the harness's byte comparison of what each handler received with the expected pattern "
+        "region (Region::matches_at, reported as 1/0), and the structural reading of the body's shape from its "
+        "segments (abs_rlen in Run_C11.v; the pattern emits [0-9a-z] only), replace Coq's own expansion of the body",
         "the position-sensitive checksum (Adler-32 style) computed by the handlers and by Run_C11.cks stands for "
         "byte equality of bodies up to 70 KiB",
     ],
@@ -69,11 +97,11 @@ CFG = {
                 "errors the stream ends normally iff total <= cap for every chunking (then the body is delivered "
                 "intact), otherwise with a 400 and the buffered extractors fail before the handler; outcome and "
                 "buffered result depend only on the bytes, not the chunking; every extractor reads only through "
-                "stream(effective cap); no usize wrap below 2^64 bytes. All 26 theorems closed under the global "
+                "stream(effective cap); the stream depends on data frames only through their lengths; no usize wrap below 2^64 bytes. All 27 theorems closed under the global "
                 "context. Correspondence on every run: the real extractors called on synthetic bodies of exactly "
                 "the case's frames (small scopes enumerated completely, incl. trailers/error/empty frames) and "
                 "live servers over TCP (default x override grid, all extractors, Content-Length and chunked with "
-                "boundaries swept across the cap), specification and model both evaluated in Coq on each "
+                "boundaries swept across the cap; a deterministic large-scope slice pushes cap, body length, frame size and frame count across 255..65537, 1 MiB, 16 MiB+1, 4 GiB and caps around u32::MAX, isize::MAX, usize::MAX), specification and model both evaluated in Coq on each "
                 "observation.",
         "design_ref": "DESIGN.md §6 C11",
         "note": "Coq kernel + vm_compute; hand-written model BodyCap.v tied to the code by the direct (frame-exact) "
